@@ -2,7 +2,7 @@
 
 import ast
 
-from ..front import norm, walk_no_nested
+from ..front import AnalysisError, norm, walk_no_nested
 from ..raises import LIBRARY, MayRaise
 from ..symeval import is_const, show
 from . import shared as SH
@@ -210,6 +210,11 @@ def run(eng, ctx):
     comps = [c for c in eng.res.sccs(reach) if len(c) > 1 or any(x in eng.res.callees(x) for x in c)]
     # besides the decoder cycle, a function may recurse on a strict part of one of its parameters (structural recursion over the finite literal
     # definitions: `for k, d in gdict.items(): ... self.f(d[1])`); anything else is an unbounded recursion
+    try:
+        eng.decoder_cycle
+    except AnalysisError:
+        ctx.bad("C04.D3", "call graph", "recursion cycles", expected="the decoder cycle reachable from the constructor (depth bounded by the definitions' nesting)", found=str([sorted(c) for c in comps])[:160] or "none", file="src/pyrtcm", line=0)
+        raise
     extra = [c for c in comps if c != set(eng.decoder_cycle)]
     unbounded = []
     for c in extra:
